@@ -69,6 +69,9 @@ func (res *Response) Header() http.Header {
 func (res *Response) WriteHeader(statusCode int) {
 	if !res.hijacked && res.statusCode == 0 && res.statusCode != statusCode {
 		status := http.StatusText(statusCode)
+		if status == "" && statusCode >= 100 && statusCode <= 999 {
+			status = "status code " + strconv.Itoa(statusCode)
+		}
 		if status != "" {
 			res.status = status
 			res.statusCode = statusCode
